@@ -16,7 +16,7 @@ for f in sorted(glob.glob('/verif/seeded/C??-[c-z]/meta.json'), key=lambda x: ('
     cb=cb.replace('|','\\|')
     rows.append(f"| {d['id']} {d['summary'].replace('|','/')} | {d['property']} | {cb} | {first} |")
 begin='<!-- round2-begin -->'; end='<!-- round2-end -->'
-txt=begin+"\n\n**Second to tenth rounds** (ids c/d, e/f, g/h, i/j, k/l, m/n, o/p; round five for twelve properties, round six for C05, C06, C07, round seven for C04, C05, C06, C07, C11, round eight for C09, C12, C13, C17, C18, round nine — ids i/j of C01, C08, C10, C14, C15, C16, C19, C20 —, round ten for C02, C03, C04, C05, C09, C12, C13, C17, C18; fresh agents again, told that the obvious changes had been tried and asked for mechanisms an enumeration of the obvious cases would be least likely to exercise — rare branches, second-order effects, constants, restart / reorganisation / eviction / error paths, option combinations, caches). Needs = what the change requires in order to manifest is in `seeded/<id>/meta.json`.\n\n| seeded change | breaks | caught by | first outcome |\n|---|---|---|---|\n"+"\n".join(rows)+f"\n\n{tot} changes in rounds 2-10: {tot-miss-nc} caught at once, {miss} missed at first and caught after a generic extension, {nc} not caught.\n\n"+end
+txt=begin+"\n\n**Second to eleventh rounds** (ids c/d, e/f, g/h, i/j, k/l, m/n, o/p, q/r; round five for twelve properties, round six for C05, C06, C07, round seven for C04, C05, C06, C07, C11, round eight for C09, C12, C13, C17, C18, round nine — ids i/j of C01, C08, C10, C14, C15, C16, C19, C20 —, round ten for C02, C03, C04, C05, C09, C12, C13, C17, C18, round eleven for C05, C12, C13, C14, C16, C17, C18; fresh agents again, told that the obvious changes had been tried and asked for mechanisms an enumeration of the obvious cases would be least likely to exercise — rare branches, second-order effects, constants, restart / reorganisation / eviction / error paths, option combinations, caches). Needs = what the change requires in order to manifest is in `seeded/<id>/meta.json`.\n\n| seeded change | breaks | caught by | first outcome |\n|---|---|---|---|\n"+"\n".join(rows)+f"\n\n{tot} changes in rounds 2-11: {tot-miss-nc} caught at once, {miss} missed at first and caught after a generic extension, {nc} not caught.\n\n"+end
 p='/verif/DESIGN.md'; s=open(p).read()
 if begin in s:
     s=re.sub(re.escape(begin)+'.*?'+re.escape(end), lambda m: txt, s, flags=re.S)
